@@ -28,3 +28,25 @@ prop('C12',
                  "2-operation boundary histories; no counterexample among the generated cases - absence beyond them is not shown."),
      technique="model-based property testing (rapidcheck byte-tape histories + libFuzzer) with bounded-exhaustive 2-step sweep, ASan/UBSan",
      design_ref="DESIGN.md section 3, C12")
+
+prop('C13',
+     quick=dict(sweep=True, pbt=(16000, 700, 8), fuzz=(60000, 700, 4)),
+     thorough=dict(sweep=True, pbt=(800000, 900, 10), fuzz=(2000000, 900, 5)),
+     floor=dict(quick=20000, thorough=300000), alloc_cap_mb=16,
+     rule=("Forest histories: a 0..200 byte source (thorough ..2000) held in memory and in a file, optional reference-encoded VOL and CLM "
+           "archives; 1..60 twelve-byte records decoded from a tape choose among Slice(s,n)/Slice(n)/copy of any live stream (depth<=5, <=14 live), "
+           "Read/ReadPartial/Peek/Seek/SeekForward/SeekBackward/SeekBeginning/SeekEnd on any live stream, drop, and archive calls "
+           "(GetName, GetSize, OpenStream -> joins the forest, ExtractFile) with slice parameters from {0,len,len+1,end-anchored,2^63,2^64-1,2^64-s,...}. "
+           "Oracle: every stream = absolute window + own cursor; after every step every live stream's Position()/Length() equals its model, bytes read "
+           "equal source[a+pos..], uncontained slices (incl. via wrap) are refused leaving the parent, Slice(n) advances the parent only on success. "
+           "One case in five is a backend-equivalence case: the same in-bounds sequence on memory, file, slice-of-memory, slice-of-file and both "
+           "slice-of-slice views of one window must give identical (position, length, bytes) traces. Sweep: all 144 (s,n) boundary pairs x 2 slice "
+           "forms x 3 parent kinds x moved/unmoved parent on sources of length 0,1,5. Non-trivial = >=3 live file-backed streams with operations "
+           "on >=2 different streams (forest) or a window >=2 bytes with >=3 operations (equivalence); distinct = hash of source and records."),
+     sweep_what="all (start,length) pairs from the 12-value boundary table x {Slice(s,n), Slice(n)} x {memory, file, file-slice parent} x {fresh, moved} on sources of length 0, 1, 5",
+     assumptions=["plain FileReader nodes only receive in-bounds operations (the property quantifies in-bounds sequences for backend equivalence)", "Linux/tmpfs file semantics"],
+     title="Slices are confined, independent, and equivalent across stream backends",
+     level_text=("Stateful generated search over forests of interleaved streams against a window+cursor model checked after every step, plus differential "
+                 "traces across six backends, under ASan/UBSan; exhaustive sweep of boundary slice parameters on tiny sources."),
+     technique="stateful model-based property testing (tape-decoded forests; rapidcheck + libFuzzer), cross-backend differential traces, boundary sweep",
+     design_ref="DESIGN.md section 3, C13")
